@@ -41,6 +41,8 @@ def generate(rng, tier):
                 ba = (0x10000000 * (mi + 1) + 0x1000 * rng.below(16)) if which == 0 else rng.choice(cands)
                 if which == 1 and (pi // 2 + mi // 2) % 3 == 0:
                     ba = cands[2]          # one presentation of every program is twinned across a 4 GiB boundary (seeded change C08-1)
+                if which == 1 and mi == 1 and (pi // 2) % 3 == 1:
+                    ba = 0                 # ... and every third program has an image at base address 0 (seeded change C08-5)
                 fdes = truth.program_fdes(funcs, base_svma)
                 name = "M%d" % mi; mi += 1
                 s.module_dwarf(name, ba + skip, ba + span, ba, base_svma, pres, fdes, Rng(order_rng), shuffle=True, **enc)
